@@ -19,6 +19,14 @@ func init() { register("C20", c20Scenarios) }
 
 var errAccept = errors.New("accepter broke")
 
+// tempErr is an accepter failure that calls itself temporary (as net.Error timeouts and
+// context.DeadlineExceeded do): still "any other failure" for Loop, which returns it.
+type tempErr struct{}
+
+func (tempErr) Error() string   { return "accepter broke for now" }
+func (tempErr) Timeout() bool   { return true }
+func (tempErr) Temporary() bool { return true }
+
 // memAccepter is an in-memory server.Accepter driven by harness threads.
 type memAccepter struct {
 	queue    []channel.Channel
@@ -156,6 +164,8 @@ func c20Scenario(p c20P, b Bounds) *Scenario {
 						j.Go("cancel", func() { vs.Event("env", "cancel"); cancel() })
 					case "fail-other":
 						j.Go("fail", func() { vs.Event("env", "fail-other"); acc.failWith = errAccept })
+					case "fail-temp":
+						j.Go("fail", func() { vs.Event("env", "fail-other"); acc.failWith = tempErr{} })
 					case "fail-closed":
 						j.Go("fail", func() { vs.Event("env", "fail-closed"); acc.failWith = fmt.Errorf("listener: %w", net.ErrClosed) })
 					}
@@ -275,7 +285,7 @@ func c20Scenario(p c20P, b Bounds) *Scenario {
 					if !(cancelled || (fc >= 0 && fc < ret)) {
 						v = append(v, Viol{"C20.R4", "Loop returned nil although neither the context ended nor the listener was closed"})
 					}
-				case rv == errAccept.Error():
+				case rv == errAccept.Error() || rv == (tempErr{}).Error():
 					if fo < 0 || fo > ret {
 						v = append(v, Viol{"C20.R4", "Loop returned the accepter's error before it had failed"})
 					}
@@ -420,6 +430,7 @@ func c20Scenarios(tier string) []*Scenario {
 	}
 	if q {
 		out = append(out, c20Scenario(c20P{Items: []string{"connerr", "cancel"}}, Bounds{1, 1, 0}), c20Scenario(c20P{Items: []string{"conn1", "connerr"}}, Bounds{1, 1, 0}))
+		out = append(out, c20Scenario(c20P{Items: []string{"conn1", "fail-temp"}}, Bounds{1, 1, 0}), c20Scenario(c20P{Items: []string{"fail-temp"}}, Bounds{1, 1, 0}))
 		out = append(out, c20Scenario(c20P{Items: []string{"conn1", "conn2", "cancel"}}, Bounds{1, 1, 0}))
 		out = append(out, c20Scenario(c20P{Items: []string{"conn1", "connfail", "cancel"}}, Bounds{1, 1, 0}))
 		out = append(out, c20Net(Bounds{2, -1, 0}))
